@@ -512,8 +512,9 @@ func (e *Engine) registerEnvIntrinsics(pkgPath string) {
 	// vrtEnvelopedValid(valuePtr, sigPtr, certDER): the enveloped signature
 	// found in sig verifies over the value as it is on the wire
 	reg("vrtEnvelopedValid", func(x *Exec, fr *frame, a []Value) Value {
-		return x.envelopedValid(a[0], a[1], x.term(a[2]))
+		return And(x.envelopedValid(a[0], a[1], x.term(a[2])), Not(x.c14nSensitive(a[0])))
 	})
+	reg("vrtC14NSensitive", func(x *Exec, fr *frame, a []Value) Value { return x.c14nSensitive(a[0]) })
 	// the SP signs (C05/C07)
 	reg("vrtSPSignRedirect", func(x *Exec, fr *frame, a []Value) Value {
 		pk := x.pubKeyOf(a[0])
@@ -730,6 +731,106 @@ func (x *Exec) observe(w *respWriter) Value {
 	}
 	f["Kind"] = StrC(kind)
 	return x.makeStruct(rt, f)
+}
+
+// Contract of github.com/amdonov/xmlsig's canonicalize (read from its source: the
+// document is re-read with an xml.Decoder, which resolves entities, and character
+// data and attribute values are written back as they are): the octets it digests
+// equal the exclusive-C14N octets of the document on the wire unless some
+// character data contains one of & < > CR or some attribute value one of
+// & < " TAB LF CR - the characters C14N writes as references. c14nSensitive is
+// that condition over the string leaves of the signed value (its Signature
+// member, which xmlsig creates afterwards from base64 and URIs, excluded).
+const reC14NText = `(re.++ re.all (re.union (str.to_re "&") (str.to_re "<") (str.to_re ">") (str.to_re "\u{d}")) re.all)`
+const reC14NAttr = `(re.++ re.all (re.union (str.to_re "&") (str.to_re "<") (str.to_re "\u{22}") (str.to_re "\u{9}") (str.to_re "\u{a}") (str.to_re "\u{d}")) re.all)`
+
+func (x *Exec) c14nSensitive(value Value) *Term {
+	v := x.force(value)
+	if iv, ok := v.(*IfaceV); ok && iv.T != nil {
+		v = x.force(iv.V)
+	}
+	vp, ok := v.(*Pointer)
+	if !ok || vp.IsNil() {
+		return FalseT
+	}
+	vt := typeAt(vp.Cell.Typ, vp.Path)
+	if vt == nil {
+		panic(abortf("vrtC14NSensitive: untyped object"))
+	}
+	r := FalseT
+	var walk func(v Value, t types.Type, attr bool, top bool, depth int)
+	walk = func(v Value, t types.Type, attr bool, top bool, depth int) {
+		if depth > 40 || v == nil {
+			return
+		}
+		if n, ok := t.(*types.Named); ok && n.Obj().Pkg() != nil && n.Obj().Pkg().Path() == "encoding/xml" && n.Obj().Name() == "Name" {
+			return
+		}
+		switch a := x.force(v).(type) {
+		case *Term:
+			if a.Sort == SStr {
+				if a.IsConst() {
+					bad := "&<>\r"
+					if attr {
+						bad = "&<\"\t\n\r"
+					}
+					if strings.ContainsAny(a.S, bad) {
+						r = TrueT
+					}
+					return
+				}
+				// "contains one of the characters" distributes over concatenation; pieces
+				// whose alphabet is known structurally (uuids, formatted instants) never do
+				for _, p := range flatten(a) {
+					switch {
+					case p.IsConst():
+						bad := "&<>\r"
+						if attr {
+							bad = "&<\"\t\n\r"
+						}
+						if strings.ContainsAny(p.S, bad) {
+							r = TrueT
+						}
+					case p.Op == "sym" && (x.attr(p, "uuid") || x.timeStrs[p.S] != nil):
+					case p.Op == "uf" && (strings.HasPrefix(p.S, "b64") || p.S == "timefmt" || p.S == "itoa"):
+					case attr:
+						r = Or(r, InRe(p, reC14NAttr))
+					default:
+						r = Or(r, InRe(p, reC14NText))
+					}
+				}
+			}
+		case *Pointer:
+			if !a.IsNil() {
+				if pt, ok := t.Underlying().(*types.Pointer); ok {
+					walk(x.load(a), pt.Elem(), attr, false, depth+1)
+				}
+			}
+		case *StructV:
+			st, ok := t.Underlying().(*types.Struct)
+			if !ok {
+				return
+			}
+			for i := 0; i < st.NumFields() && i < len(a.F); i++ {
+				tag := st.Tag(i)
+				if strings.Contains(tag, `xml:"-"`) || strings.Contains(tag, ",innerxml") || strings.Contains(tag, ",comment") {
+					continue
+				}
+				if top && st.Field(i).Name() == "Signature" {
+					continue
+				}
+				walk(a.F[i], st.Field(i).Type(), strings.Contains(tag, ",attr"), false, depth+1)
+			}
+		case *SliceV:
+			if sl, ok := t.Underlying().(*types.Slice); ok {
+				for _, e := range x.sliceElems(a) {
+					walk(e, sl.Elem(), attr, false, depth+1)
+				}
+			}
+		}
+	}
+	walk(x.load(vp), vt, false, true, 0)
+	return r
 }
 
 // envelopedValid: does the signature verify over the value on the wire?
